@@ -1,3 +1,4 @@
 //! Small, independent, executable reference models (no code shared with the repository).
+pub mod flatmem;
 pub mod rfc6962;
 pub mod smt;
